@@ -81,7 +81,42 @@ def rule_timer(ctx, f, ty):
             t_ = b.term_place(pl)
             return bool(pl["p"]) and isinstance(t_, tuple) and len(t_) == 3 and t_[0] == "field" and t_[2] == "observed"
         stores = [(bi, b.term_rvalue(rv)) for bi, si, pl, rv in b.stores() if to_observed(pl)]
+        # `mem::replace(&mut self.observed, true)`: a store of the new value that also hands back the old one
+        for c_ in b.calls_to(["mem::replace"]):
+            if self_field(c_.args[0], "observed"):
+                stores.append((c_.bb, c_.args[1]))
         return recs, es, stores
+
+    def flag_swaps(b):
+        return [c_ for c_ in b.calls_to(["mem::replace"]) if self_field(c_.args[0], "observed")]
+
+    def unset_on_entry():
+        """The flag of a timer that no consuming method has been called on is false: every store to it (plain or by swap) lies in Drop::drop, in a method that takes
+        the timer by value, or in a private function called only from those; and it is built false (T1) and never set to anything but true (T2)."""
+        holders = set()
+        for k_ in f.order:
+            bd = f.bodies[k_]
+            if not strip_generics(bd.path).startswith(T + "::") and strip_generics(bd.path) != "<%s as std::ops::Drop>::drop" % T:
+                continue
+            has = any(pl["p"] and pl["p"][-1][0] == "field" and pl["p"][-1][2] == "observed" for _bi, _si, pl, _rv in bd.stores()) or \
+                any(isinstance(peel(c_.args[0]), tuple) and len(peel(c_.args[0])) == 3 and peel(c_.args[0])[2] == "observed" for c_ in bd.calls_to(["mem::replace", "mem::swap", "mem::take"]))
+            if has:
+                holders.add(bd.path)
+
+        def consuming(pth, depth=0):
+            bd = f.body(pth)
+            if bd is None:
+                return False
+            if strip_generics(pth) == "<%s as std::ops::Drop>::drop" % T:
+                return True
+            ins = bd.raw.get("inputs", [])
+            if ins and ins[0] == T:
+                return True
+            if bd.raw.get("vis") == "pub" or depth > 2:
+                return False
+            callers = [f.bodies[k2].path for k2 in f.order if any((c2.res or c2.callee) == pth for c2 in f.bodies[k2].calls())]
+            return bool(callers) and all(consuming(c3, depth + 1) for c3 in callers)
+        return bool(holders) and all(consuming(h_) for h_ in holders)
     # T2: `observed` only ever becomes true
     bad_w = []
     for k in f.order:
@@ -91,6 +126,12 @@ def rule_timer(ctx, f, ty):
                 v = b.term_rvalue(rv)
                 if not (v[0] == "const" and v[1] == "true"):
                     bad_w.append((strip_generics(b.path), show(v)))
+        for c_ in b.calls_to(["mem::replace", "mem::swap", "mem::take"]):
+            t_ = peel(c_.args[0])
+            if isinstance(t_, tuple) and len(t_) == 3 and t_[0] == "field" and t_[2] == "observed" and strip_generics(b.path).startswith((T + "::", "<%s as " % T)):
+                v = c_.args[1] if (c_.matches("mem::replace") and len(c_.args) > 1) else ("other", "swap/take")
+                if not (v[0] == "const" and v[1] == "true"):
+                    bad_w.append((strip_generics(b.path), show(v)))
     ctx.ob("T2", ty + "|observed-set-once", not bad_w, "`observed` may only ever be set to true (found %s)" % bad_w)
     # T3/T5: the three consuming methods
     for m, want_rec in (("stop_and_record", True), ("observe_duration", True), ("stop_and_discard", False)):
@@ -98,24 +139,37 @@ def rule_timer(ctx, f, ty):
         if not b:
             continue
         recs, es, stores = summary(b)
-        live = b.reach_ps(0)
+        sw_ = flag_swaps(b)
+        A = None
+        if sw_:
+            # the swap hands back the flag's value on entry: false, when the timer cannot have been consumed before (and this is the only swap, executed once)
+            if len(sw_) == 1 and not b.in_loop(sw_[0].bb) and unset_on_entry():
+                A = {sw_[0].bb: ("bool", False)}
+            else:
+                A = {}
+
+        def passes(bbs, start=0):
+            if not A:
+                return b.all_paths_pass(start, bbs)
+            return not [x for x in b.reach_ps(start, avoid_blocks=bbs, assume=A) if b.blocks[x]["term"]["k"] == "return"]
+        live = b.reach_ps(0, assume=A)
         recs_live = [c for c in recs if c.bb in live]
         ok = len(es) >= 1 and len([e for e in es if e.bb in live]) == 1
         e = [e for e in es if e.bb in live][0] if ok else None
-        ok = ok and self_field(e.args[0], "start") and b.all_paths_pass(0, [e.bb])
+        ok = ok and self_field(e.args[0], "start") and passes([e.bb])
         if want_rec:
-            ok = ok and len(recs_live) == 1 and b.all_paths_pass(0, [recs_live[0].bb]) and not b.in_loop(recs_live[0].bb) \
+            ok = ok and len(recs_live) == 1 and passes([recs_live[0].bb]) and not b.in_loop(recs_live[0].bb) \
                 and peel(recs_live[0].args[1]) == e.result_term() and self_field(recs_live[0].args[0], target_field)
         else:
             ok = ok and not recs_live
         # the flag is raised on every path, so that the Drop that follows does not record again
         st_live = [bi for bi, v in stores if bi in live]
-        ok = ok and bool(st_live) and b.all_paths_pass(0, st_live) and all(v[0] == "const" and v[1] == "true" for bi, v in stores if bi in live)
+        ok = ok and bool(st_live) and passes(st_live) and all(v[0] == "const" and v[1] == "true" for bi, v in stores if bi in live)
         if m != "observe_duration":
             r0 = peel(b.term_local(0))
             rets = [peel(a_) for a_ in b.var_alts(r0[1])] if (isinstance(r0, tuple) and r0[0] == "var") else [r0]
             ok = ok and e is not None and bool(rets) and all(x == e.result_term() for x in rets)
-        eff = [c for c in effect_calls(b, PURE + ["Instant::elapsed_sec"]) if c.bb in live and not c.matches(rec_callee)]
+        eff = [c for c in effect_calls(b, PURE + ["Instant::elapsed_sec"]) if c.bb in live and not c.matches(rec_callee) and c not in sw_]
         ctx.ob("T5", "%s::%s|one-observe" % (ty, m), ok and not eff,
                "%s must measure self.start.elapsed_sec() once, %s, raise `observed` on every path%s, and do nothing else (other effects: %s)" % (
                    m, "record exactly that value exactly once into self.%s" % target_field if want_rec else "record nothing",
@@ -135,19 +189,55 @@ def rule_timer(ctx, f, ty):
                 break
         okg = g is not None and len(recs) >= 1
         if okg:
-            on_true, on_false = d.reach_ps(g[1]), d.reach_ps(g[2])
+            # a swap of the flag behind the `observed == false` edge hands back false (nothing stores to the flag in between)
+            Ad = None
+            sd_ = flag_swaps(d)
+            if sd_:
+                Ad = {c_.bb: ("bool", False) for c_ in sd_ if d.edge_dominates(g[0], g[2], c_.bb) and not d.in_loop(c_.bb)} if len(sd_) == 1 else {}
+            _rp = d.reach_ps
+
+            class _D:       # the same body with the assumption threaded through every path-sensitive query below
+                def reach_ps(self, start, **kw):
+                    return _rp(start, assume=Ad, **kw)
+            dd = _D() if Ad else d
+            on_true, on_false = dd.reach_ps(g[1]), dd.reach_ps(g[2])
             rl = [c for c in recs if c.bb in on_false]
-            okg = not [c for c in recs if c.bb in on_true and c.bb not in on_false] and len(rl) == 1 and d.all_paths_pass(g[2], [rl[0].bb]) and not d.in_loop(rl[0].bb)
+
+            def passes_d(start, bbs):
+                if not Ad:
+                    return d.all_paths_pass(start, bbs)
+                return not [x for x in dd.reach_ps(start, avoid_blocks=bbs) if d.blocks[x]["term"]["k"] == "return"]
+            okg = not [c for c in recs if c.bb in on_true and c.bb not in on_false] and len(rl) == 1 and passes_d(g[2], [rl[0].bb]) and not d.in_loop(rl[0].bb)
             el = [e for e in es if e.bb in on_false]
             okg = okg and len(el) == 1 and self_field(el[0].args[0], "start") and peel(rl[0].args[1]) == el[0].result_term() and self_field(rl[0].args[0], target_field)
             # nothing but the flag decides
-            others = [bi for bi in d.reachable_blocks() if bi != g[0] and bi in d.reach_ps(0) and (d.bool_edges(bi) or d.switch_info(bi)) and rl[0].bb in d.reach_ps(bi)
+            others = [] if not okg else [bi for bi in d.reachable_blocks() if bi != g[0] and bi in dd.reach_ps(0) and (d.bool_edges(bi) or d.switch_info(bi)) and rl[0].bb in dd.reach_ps(bi)
                       and not (d.bool_edges(bi) and self_field(d.bool_edges(bi)[0], "observed"))]
+            def debug_assert_guard(bi_):
+                """one arm of the branch does nothing but fail a debug_assert! (compiled out of release builds; C17 treats these the same way)"""
+                import re as _re
+                for x_ in d.succs(bi_):
+                    r_ = d.reach(x_)
+                    if any(d.blocks[y_]["term"]["k"] == "return" for y_ in r_) or rl[0].bb in r_:
+                        continue
+                    pcs = [c_ for c_ in d.calls() if c_.bb in r_ and c_.matches([_re.compile(r"panicking::(panic|panic_fmt|assert_failed)")])]
+                    if pcs and all(any(_re.search(r'"debug_assert(_eq|_ne)?"', m_) for m_ in ((c_.t.get("sp") or {}).get("macros") or (c_.t.get("fnsp") or {}).get("macros") or [])) for c_ in pcs):
+                        return True
+                return False
             live_others = []
             for bi in others:
+                if debug_assert_guard(bi):
+                    continue
                 # a branch on the (inlined, constant) `record` argument is decided statically: both arms are not live
-                succ_live = [x for x in d.succs(bi) if x in d.reach_ps(g[2])]
-                if len(succ_live) > 1 and not all(rl[0].bb in d.reach_ps(x) or x == rl[0].bb for x in succ_live):
+                succ_live = [x for x in d.succs(bi) if x in dd.reach_ps(g[2])]
+                if Ad:
+                    # with the swap's result known, a branch is live only if the walk from the guard really takes both arms
+                    from_guard = set()
+                    for x in d.succs(bi):
+                        if x in dd.reach_ps(g[2], avoid_edges={(bi, y) for y in d.succs(bi) if y != x}):
+                            from_guard.add(x)
+                    succ_live = [x for x in succ_live if x in from_guard]
+                if len(succ_live) > 1 and not all(rl[0].bb in dd.reach_ps(x) or x == rl[0].bb for x in succ_live):
                     live_others.append(bi)
             okg = okg and not live_others
         ctx.ob("T4", ty + "::drop|records-iff-unobserved", okg,
